@@ -77,3 +77,8 @@ Definition step (s : rstate) (i : input) : rstate :=
 Definition run (s : rstate) (is : list input) : rstate := fold_left step is s.
 
 End Loop.
+
+(* handleEthereumEvent turns each event of the range into a claim; an event whose fields txs.EthereumEventToEthBridgeClaim
+   refuses is logged and left out, the events after it are handled all the same: what the loop submits for a block is
+   the sub-list of its events that can be translated, in their order *)
+Definition translatable_events (tr : Z -> bool) (raw : Z -> list Z) : Z -> list Z := fun b => filter tr (raw b).
